@@ -38,6 +38,7 @@ func alphabet(thorough bool) []ops.Op {
 		{K: "Tx", A: 1, B: 13, T: 1, V: -1},    // everything to an empty account
 		{K: "Tx", A: 2, B: 0, T: 0, V: -2},     // balance+1: must be refused
 		{K: "Tx", A: 0, B: 2, T: 2, V: 3},      // custom token (zero standard if none yet)
+		{K: "Tneg", A: 3, B: 1, T: 0, V: 5},    // a transfer whose in-memory amount is negative (raw publication path)
 		{K: "R", A: 1},                         // receive oldest pending
 		{K: "Rwrong", A: 2, B: 1},              // receive by the wrong account
 		{K: "Rdup", A: 1},                      // second receive of the same send
